@@ -45,17 +45,34 @@ class Frame:
         self.bb = bb; self.pc = 0
 
 
+_MISSING = object()
+
+
 class State:
-    __slots__ = ('stack', 'heap', 'ncell', 'nfid', 'env', 'depth', 'trace')
+    __slots__ = ('stack', 'heap', 'ncell', 'nfid', 'env', 'depth', 'trace', 'journal')
 
     def __init__(self):
         self.stack = []; self.heap = {}; self.ncell = 0; self.nfid = 0; self.env = {}; self.depth = 0; self.trace = ()
+        self.journal = None           # undo log of writes made while a terminator executes (see Exec.step)
+
+    def jset(self, d, k, v):
+        """d[k] = v, remembered in the undo log when one is open"""
+        if self.journal is not None:
+            self.journal.append((d, k, d.get(k, _MISSING)))
+        d[k] = v
+
+    def rollback(self, j):
+        for d, k, old in reversed(j):
+            if old is _MISSING:
+                d.pop(k, None)
+            else:
+                d[k] = old
 
     def clone(self):
         s = State()
         s.stack = [f.clone() for f in self.stack]
         s.heap = dict(self.heap); s.ncell = self.ncell; s.nfid = self.nfid; s.env = dict(self.env); s.depth = self.depth
-        s.trace = self.trace
+        s.trace = self.trace; s.journal = None
         return s
 
     def frame(self, fid):
@@ -66,7 +83,7 @@ class State:
 
     def alloc(self, val):
         self.ncell += 1
-        self.heap[self.ncell] = val
+        self.jset(self.heap, self.ncell, val)
         return Loc(('H', self.ncell))
 
 
@@ -281,10 +298,14 @@ class Exec:
         self.over = overrides or {}
         self.tables = tables or {}           # struct/enum layouts
         self.solver = z3.Solver()
+        self.solver.set('timeout', 1200000)      # an incremental query that runs longer comes back unknown -> Unsupported (undecided), never hangs a check
+        self.inc_fast_ms = 4000; self.n_oneshot = 0; self.inc_stalls = 0
         self.nq = 0; self.solver_s = 0.0; self.aux = None; self.nq_aux = 0
         self.defer = False; self.deferred = []; self.nodefer_sites = set(); self.n_deferred = 0
         self.pc = [[]]; self._vars = {}; self._local_cache = {}; self._keep = []; self.nq_cached = 0
         self.sq_abstract = False; self.n_sq = 0; self.abstract_rem = False; self.n_rem = 0
+        self.prod_abstract = False; self.products = {}
+        self.local_timeout_ms = 1200000       # a one-shot query that takes longer is reported as undecided (Unsupported), never waited for forever
         self.use_intervals = False; self.bounds = {}; self._iv = {}
         self.paths = 0; self.steps = 0
         self.panics = []                      # (kind, msg, site, model_inputs, extra)
@@ -302,21 +323,45 @@ class Exec:
         self.user = {}
 
     # ---------------------------------------------------------------- solver plumbing
+    def _decide(self, extra, want_model):
+        """sat(path condition AND extra) -> (z3 result, model or None). The incremental core follows the path cheaply but can be orders of
+        magnitude slower than z3's one-shot pipeline on arithmetic-heavy conditions: it gets a short budget, then the same question
+        (whole path condition) goes to a fresh solver; after three stalls in a row this executor asks the fresh solver first."""
+        r = z3.unknown; m = None
+        if self.inc_stalls < 3:
+            if extra:
+                self.solver.push()
+                for e in extra: self.solver.add(e)   # temporary: not mirrored
+            self.solver.set('timeout', self.inc_fast_ms)
+            try:
+                r = self.solver.check()
+            finally:
+                self.solver.set('timeout', 1200000)       # direct users of the incremental solver (value enumeration, oracles) keep the long budget
+            if r == z3.sat and want_model:
+                m = self.solver.model()
+            if extra:
+                self.solver.pop()
+            self.inc_stalls = self.inc_stalls + 1 if r == z3.unknown else 0
+        if r == z3.unknown:
+            self.n_oneshot += 1
+            one = z3.Solver(); one.set('timeout', self.local_timeout_ms)
+            for lvl in self.pc:
+                for c in lvl: one.add(c)
+            for e in extra: one.add(e)
+            r = one.check()
+            if r == z3.sat and want_model:
+                m = one.model()
+            if r == z3.unknown:
+                raise Unsupported('solver returned unknown: ' + one.reason_unknown())
+        return r, m
+
     def check(self, *extra):
         self.nq += 1
         t0 = time.time()
-        if extra:
-            self.solver.push()
-            for e in extra: self.solver.add(e)   # temporary: not mirrored
-        r = self.solver.check()
-        m = None
-        if r == z3.sat and extra:
-            m = self.solver.model()
-        if extra:
-            self.solver.pop()
-        self.solver_s += time.time() - t0
-        if r == z3.unknown:
-            raise Unsupported('solver returned unknown: ' + self.solver.reason_unknown())
+        try:
+            r, m = self._decide(extra, bool(extra))
+        finally:
+            self.solver_s += time.time() - t0
         return r == z3.sat, m
 
     # path-condition mirror (for cone-of-influence queries) ---------------------------------------
@@ -338,6 +383,13 @@ class Exec:
             if z3.is_true(c):
                 continue
             self.solver.add(c); self.pc[-1].append(c); self._keep.append(c)   # kept alive: AST ids key the local-query cache
+
+    def assume_or_end(self, cond):
+        """after a violable panic obligation has been recorded: continue on the non-panicking side if there is one, else the path ends"""
+        ok, _ = self.check(cond)
+        if not ok:
+            raise PathEnd()
+        self.assume(cond)
 
     def vars_of(self, t):
         k = t.get_id()
@@ -384,6 +436,7 @@ class Exec:
         self.nq += 1
         t0 = time.time()
         s = z3.Solver()
+        s.set('timeout', self.local_timeout_ms)
         for i, c in enumerate(cons):
             if picked[i]: s.add(c)
         s.add(cond)
@@ -499,6 +552,26 @@ class Exec:
         self._keep.append(t)
         return r
 
+    def abstract_product(self, a, b):
+        """cut point for a product of two symbolic unsigned operands whose ranges are known and whose product fits the type: the
+        product is replaced by a fresh variable p with lo_a*lo_b <= p <= hi_a*hi_b (a sound over-approximation: whatever is shown
+        for every p in the range holds for the real product). The pairing is recorded in self.products for the oracle."""
+        (la, ha), (lb, hb) = self.interval(a), self.interval(b)
+        w = WIDTH[a.ty]
+        if ha * hb >= (1 << w):
+            return None
+        key = tuple(sorted((a.t.get_id(), b.t.get_id())))
+        hit = self.products.get(key)
+        if hit is not None:
+            return V(hit[0], a.ty)
+        name = 'prod_%d' % (len(self.products) + 1)
+        pv = z3.BitVec(name, w)
+        self._keep.extend([a.t, b.t])
+        self.products[key] = (pv, a.t, b.t)
+        self.bounds[name] = (la * lb, ha * hb)
+        self.assume(z3.And(z3.UGE(pv, z3.BitVecVal(la * lb, w)), z3.ULE(pv, z3.BitVecVal(ha * hb, w))))
+        return V(pv, a.ty)
+
     def abstract_square(self, st, a):
         """x*x for a symbolic x is replaced by a fresh variable sq with 0 <= sq <= 2^(2k), where 2^k bounds |x| on this
         path (k found by solver queries). Sound over-approximation of the product; the pairing (x, sq) is recorded in
@@ -528,11 +601,13 @@ class Exec:
     def model(self):
         self.nq += 1
         t0 = time.time()
-        r = self.solver.check()
-        self.solver_s += time.time() - t0
+        try:
+            r, m = self._decide((), True)
+        finally:
+            self.solver_s += time.time() - t0
         if r != z3.sat:
             raise Unsupported('path condition not sat when a model was requested: %s' % r)
-        return self.solver.model()
+        return m
 
     def new_input(self, name, ty):
         if ty == 'bool':
@@ -619,13 +694,13 @@ class Exec:
         if r[0] == 'T':
             raise Unsupported('store to temporary')
         if not loc.path:
-            if r[0] == 'L': st.frame(r[1]).locals[r[2]] = val
-            else: st.heap[r[1]] = val
+            if r[0] == 'L': st.jset(st.frame(r[1]).locals, r[2], val)
+            else: st.jset(st.heap, r[1], val)
             return
         if r[0] == 'L':
-            fr = st.frame(r[1]); fr.locals[r[2]] = self._upd(fr.locals[r[2]], loc.path, val)
+            fr = st.frame(r[1]); st.jset(fr.locals, r[2], self._upd(fr.locals[r[2]], loc.path, val))
         else:
-            st.heap[r[1]] = self._upd(st.heap[r[1]], loc.path, val)
+            st.jset(st.heap, r[1], self._upd(st.heap[r[1]], loc.path, val))
 
     def _upd(self, v, path, val):
         if not path:
@@ -773,7 +848,7 @@ class Exec:
     def write_place(self, st, fr, s, val):
         node = self.parse_place(s)
         if node[0] == 'local':
-            fr.locals[node[1]] = val; return
+            st.jset(fr.locals, node[1], val); return
         loc, rng = self.place_loc(st, fr, node)
         self.store(st, loc, val)
 
@@ -891,11 +966,19 @@ class Exec:
                     self.assume(z3.ULT(r, z3.BitVecVal(b.t, WIDTH[a.ty])))
                     self.bounds['rem_%d' % self.n_rem] = (0, b.t - 1)
                     return V(r, a.ty)
+                if name in ('Le', 'Lt', 'Ge', 'Gt') and a.ty in WIDTH and not (a.conc and b.conc):
+                    log = self.user.setdefault('cmp_log', [])      # symbolic integer comparisons (type, operands): lets an oracle see in which width a bound is tested
+                    if len(log) < 400:
+                        log.append((a.ty, a.t if not a.conc else b.t))
                 return binop(name, a, b)
             if name.endswith('WithOverflow'):
                 a, b = [self.operand(st, fr, x) for x in split_top(inner)]
                 if self.sq_abstract and name == 'MulWithOverflow' and not a.conc and not b.conc and a.t.eq(b.t):
                     return self.abstract_square(st, a)
+                if self.prod_abstract and name == 'MulWithOverflow' and not a.conc and not b.conc and not signed(a.ty):
+                    pv = self.abstract_product(a, b)
+                    if pv is not None:
+                        return Tup(pv, mkbool(False))
                 if self.use_intervals and not (a.conc and b.conc) and not signed(a.ty):
                     # unsigned interval arithmetic over the term DAG (exact for sums of independent bounded variables): when the result
                     # provably fits, the overflow flag is the constant false and no solver query is needed
@@ -943,7 +1026,7 @@ class Exec:
                 return a
             raise Unsupported('cast ' + kind)
         # references
-        m = re.match(r'&(?:mut |raw const |raw mut |fake shallow |fake deep |fake )?(.*)$', r)
+        m = re.match(r'&(?:mut |raw const \(fake\) |raw mut \(fake\) |raw const |raw mut |fake shallow |fake deep |fake )?(.*)$', r)
         if m and not r.startswith('&&'):
             node = self.parse_place(m.group(1))
             loc, rng = self.place_loc(st, fr, node)
@@ -954,6 +1037,8 @@ class Exec:
 
     def discriminant(self, v):
         if isinstance(v, SymResult):
+            if v.opt:      # Option: None = 0, Some = 1
+                return V(z3.If(v.err, z3.BitVecVal(0, 64), z3.BitVecVal(1, 64)), 'isize')
             return V(z3.If(v.err, z3.BitVecVal(1, 64), z3.BitVecVal(0, 64)), 'isize')
         if not isinstance(v, Agg):
             raise Unsupported('discriminant of %r' % (v,))
@@ -1106,6 +1191,10 @@ class Exec:
         if m: k = 'array::' + m.group(1)
         m = re.match(r'^(?:core|std)::str::<impl str>::(\w+)$', k)
         if m: k = 'str::' + m.group(1)
+        m = re.match(r'^(?:core|std)::bool::<impl bool>::(\w+)', k)
+        if m: k = 'bool::' + m.group(1)
+        m = re.match(r'^(?:core|std)::iter::(repeat_with|repeat_n|repeat|from_fn|once|empty|successors)\b', k)
+        if m: k = 'iter::' + m.group(1)
         for cand in (k, k.split('::', 1)[1] if '::' in k else k):
             if cand in self.over:
                 return ('over', cand, info)
@@ -1190,10 +1279,83 @@ class Exec:
                         self.assume(feas[0][0]); continue
                     if not feas:
                         raise Unsupported('no feasible arm inside a synchronous call')
+                    merged = self.merge_sync_arms(st, base, feas)
+                    if merged is not None:
+                        del st.stack[base:]
+                        return merged[0]
                     raise ForkBool(feas[0][0])
         except BaseException:
             del st.stack[base:]            # the summary will be re-executed (or the path ends): drop its frames
             raise
+
+    def merge_sync_arms(self, st, base, feas):
+        """state merging for a two-way symbolic branch inside a closure called from a library summary: both arms are run
+        to the closure's return on copies of the state, under their arm condition; if neither has a side effect outside
+        its own frames and the two return values have mergeable shapes (scalars -> ite, Ok/Err -> SymResult, aggregates
+        fieldwise) the closure returns the merged value and the path does not split. Anything else: None (the caller
+        falls back to forking the outer path). Obligations inside the arms are decided under the arm condition."""
+        if len(feas) != 2 or getattr(self, 'no_sync_merge', False):
+            return None
+        n_pan = len(self.panics)
+        outs = []; extras = []
+        for cond, bb in feas:
+            s2 = st.clone()
+            if bb is not None:
+                s2.stack[-1].jump(bb)
+            self.push()
+            try:
+                self.assume(cond)
+                k = len(self.pc[-1])
+                try:
+                    rv = self.run_sync_frame_at(s2, base)
+                except (ForkBool, ForkOn, PathEnd):
+                    del self.panics[n_pan:]
+                    return None
+                extras.append((cond, list(self.pc[-1][k:])))   # constraints the arm added (cut-point definitions, pruning)
+            finally:
+                self.pop()
+            # side effects below the closure's own frames or in pre-existing heap cells?
+            for a, b in zip(st.stack[:base], s2.stack[:base]):
+                if len(a.locals) != len(b.locals) or any(b.locals.get(k) is not v for k, v in a.locals.items()):
+                    del self.panics[n_pan:]
+                    return None
+            if any(s2.heap.get(k) is not v for k, v in st.heap.items()):
+                del self.panics[n_pan:]
+                return None
+            outs.append((cond, rv))
+        try:
+            m = merge_values(outs[0][0], outs[0][1], outs[1][1])
+        except NoMerge:
+            del self.panics[n_pan:]
+            return None
+        for cond, cs in extras:
+            for c in cs:
+                self.assume(z3.Implies(cond, c))               # they keep constraining the merged value when that arm is taken
+        self.n_merged = getattr(self, 'n_merged', 0) + 1
+        return (m,)
+
+    def run_sync_frame_at(self, st, base):
+        """continue a synchronous call whose frame sits at index `base` of st (used by merge_sync_arms on state copies)"""
+        while True:
+            r = self.step(st, sync_base=base)
+            if r is None:
+                continue
+            if r[0] == 'sync_return':
+                return r[1]
+            if r[0] != 'fork':
+                raise Unsupported('unexpected step result inside a synchronous call: %r' % (r[0],))
+            feas = [(c, bb) for c, bb in r[1] if not z3.is_false(c) and self.check(c)[0]]
+            if len(feas) == 1 and feas[0][1] is not None:
+                st.stack[-1].jump(feas[0][1]); continue
+            if len(feas) == 1:
+                self.assume(feas[0][0]); continue
+            if not feas:
+                raise Unsupported('no feasible arm inside a synchronous call')
+            merged = self.merge_sync_arms(st, base, feas)
+            if merged is None:
+                raise ForkBool(feas[0][0])
+            del st.stack[base:]
+            return merged[0]
 
     # ---------------------------------------------------------------- stepping
     def step(self, st, sync_base=None):
@@ -1207,7 +1369,20 @@ class Exec:
             while fr.pc < last:
                 self.statement(st, fr, stmts[fr.pc])
                 fr.pc += 1
-            return self.terminator(st, fr, stmts[last], sync_base)
+            if st.journal is not None:
+                return self.terminator(st, fr, stmts[last], sync_base)
+            # outermost terminator: a library summary that calls closures may be abandoned half-way (ForkOn / ForkBool) and
+            # re-executed on each side of the fork; the writes it (or its closures) made so far are undone first
+            st.journal = j = []
+            depth = len(st.stack)
+            try:
+                return self.terminator(st, fr, stmts[last], sync_base)
+            except (ForkOn, ForkBool):
+                del st.stack[depth:]
+                st.rollback(j)
+                raise
+            finally:
+                st.journal = None
         except ForkOn as fo:
             return self.fork_values(st, fo)
         except ForkBool as fb:
@@ -1309,6 +1484,34 @@ class Exec:
             f.ret_dest = dest; f.ret_bb = target
             self.fn_steps[tgt.key or tgt.name] = self.fn_steps.get(tgt.key or tgt.name, 0) + 1
             return None
+        if kind == 'summary' and tgt in ('FnMut::call_mut', 'Fn::call', 'FnOnce::call_once') and args:
+            # a local closure called by name in the code itself (`push_bits(x, 3)`): an ordinary call of the closure's MIR body
+            c0 = args[0]
+            cl = self.load(st, c0.loc) if isinstance(c0, Ref) else c0
+            if isinstance(cl, Ref):
+                c0 = cl; cl = self.load(st, cl.loc)
+            if isinstance(cl, FnItem):
+                rv = self.call_value(st, cl, list(args[1].f) if len(args) > 1 and isinstance(args[1], Agg) and args[1].name == 'tuple' else args[1:])
+                if dest: self.write_place(st, fr, dest, rv)
+                fr.jump(target)
+                return None
+            if isinstance(cl, Closure):
+                body = self.prog.items.get(cl.fn)
+                if body is None:
+                    raise Unsupported('closure body not found: %s' % cl.fn)
+                first_ty = body.types[body.params[0]]
+                if first_ty.startswith('&'):
+                    first = c0 if isinstance(c0, Ref) else Ref(st.alloc(cl))
+                else:
+                    first = cl
+                rest = list(args[1:])
+                if len(rest) == 1 and isinstance(rest[0], Agg) and rest[0].name == 'tuple' and len(body.params) == 1 + len(rest[0].f):
+                    rest = list(rest[0].f)
+                if target is None:
+                    raise Unsupported('diverging closure call')
+                f = self.push_call(st, body, dict(fr.env), [first] + rest)
+                f.ret_dest = dest; f.ret_bb = target
+                return None
         if kind == 'summary' and args and info.get('trait'):
             # generic code (`<F as Neg>::neg`): dispatch on the runtime value's type
             a0 = args[0]
@@ -1350,6 +1553,8 @@ class Exec:
             while True:
                 self.nq += 1
                 t0 = time.time(); r = self.solver.check(); self.solver_s += time.time() - t0
+                if r == z3.unknown:
+                    raise Unsupported('solver unknown while enumerating the values of a term: ' + self.solver.reason_unknown())
                 if r != z3.sat: break
                 val = self.solver.model().eval(t, model_completion=True)
                 arms.append((t == val, None))
@@ -1476,6 +1681,76 @@ class Exec:
                         self.pop()
                 return
             raise Unsupported('step result %r' % (r,))
+
+
+class NoMerge(Exception):
+    pass
+
+
+def merge_values(c, a, b):
+    """value that equals a when c holds and b otherwise; NoMerge when the shapes cannot be merged"""
+    if a is b:
+        return a
+    if a is None or b is None:
+        raise NoMerge()
+    if isinstance(a, V) and isinstance(b, V):
+        if a.ty != b.ty or a.t.sort() != b.t.sort():
+            raise NoMerge()
+        return V(simp(z3.If(c, a.t, b.t)), a.ty)
+    if isinstance(a, Agg) and isinstance(b, Agg):
+        if a.name == 'Result' and b.name == 'Result' and a.variant != b.variant:
+            ok, er = (a, b) if a.variant == 'Ok' else (b, a)
+            if has_ref(ok.f[0]) or has_ref(er.f[0]):
+                raise NoMerge()
+            return SymResult(c if er is a else simp(z3.Not(c)), ok.f[0], er.f[0])
+        if a.name == 'Option' and b.name == 'Option' and a.variant != b.variant:
+            some, none = (a, b) if a.variant == 'Some' else (b, a)
+            if has_ref(some.f[0]):
+                raise NoMerge()
+            return SymResult(c if none is a else simp(z3.Not(c)), some.f[0], None, opt=True)
+        if a.name != b.name or a.variant != b.variant or len(a.f) != len(b.f):
+            raise NoMerge()
+        fs = []
+        for x, y in zip(a.f, b.f):
+            fs.append(merge_values(c, x, y))
+        return Agg(a.name, a.variant, fs)
+    if isinstance(a, SymResult) or isinstance(b, SymResult):
+        isopt = [x.opt for x in (a, b) if isinstance(x, SymResult)][0]
+
+        def parts(x):
+            if isinstance(x, SymResult):
+                if x.opt != isopt: raise NoMerge()
+                return x.err, x.ok, x.errval
+            if isinstance(x, Agg) and x.name == 'Result' and not isopt:
+                return (z3.BoolVal(x.variant == 'Err'), x.f[0] if x.variant == 'Ok' else None, x.f[0] if x.variant == 'Err' else None)
+            if isinstance(x, Agg) and x.name == 'Option' and isopt:
+                return (z3.BoolVal(x.variant == 'None'), x.f[0] if x.variant == 'Some' else None, None)
+            raise NoMerge()
+        pa, pb = parts(a), parts(b)
+        if isopt:
+            ok = pa[1] if pb[1] is None else (pb[1] if pa[1] is None else merge_values(c, pa[1], pb[1]))
+            return SymResult(simp(z3.If(c, pa[0], pb[0])), ok, None, opt=True)
+        ok = pa[1] if pb[1] is None else (pb[1] if pa[1] is None else merge_values(c, pa[1], pb[1]))
+        ev = pa[2] if pb[2] is None else (pb[2] if pa[2] is None else merge_values(c, pa[2], pb[2]))
+        return SymResult(simp(z3.If(c, pa[0], pb[0])), ok, ev)
+    if isinstance(a, Seq) and isinstance(b, Seq) and a.kind == b.kind and len(a.e) == len(b.e):
+        es = []
+        for x, y in zip(a.e, b.e):
+            es.append(merge_values(c, x, y))
+        return Seq(a.kind, es)
+    raise NoMerge()
+
+
+def has_ref(v):
+    if isinstance(v, (Ref, Loc)):
+        return True
+    if isinstance(v, Agg):
+        return any(has_ref(x) for x in v.f)
+    if isinstance(v, Seq):
+        return any(has_ref(x) for x in v.e)
+    if isinstance(v, SymResult):
+        return has_ref(v.ok) or has_ref(v.errval)
+    return False
 
 
 def fp_to_py(x):
